@@ -65,6 +65,16 @@ CHECKS = {
    note=NOTE + " C19: Model/Call.v is a hand transcription of NewFunc/newMethod/call/callReady/Func (tie by correspondence); btErr's message text is not modelled.",
    technique="Coq proof over go2v-regenerated constructors/accessors and a stack-discipline model of the adapters + correspondence",
    ref="DESIGN.md section 5 C19"),
+ "C17": dict(
+   text="Theorems on Model/Reload.v for EVERY signature, every family of versions and every history of Load / capture / store / call / identity test, from the empty VM: c17_identity (one function object per declaration for the whole history, bound methods and host-held Values unchanged), c17_latest / c17_latest_call / c17_any_call (every reference taken at any earlier point runs the body of the version loaded last; there are no other function objects), c17_state (variables without initialiser and instances keep their state, initialised variables are reset), c17_idem (reloading unchanged source is observationally a no-op), c17_invariant (the reachable-state invariant the others rest on). Correspondence: histories on one real VM per history with real Load on swapped in-memory file systems; system level: generated package families with native oracles.",
+   note=NOTE + " C17: Model/Reload.v is a hand transcription of GLOBALFUNC/GLOBALZERO/GLOBALSET/GLOBALSTRUCT/SETMETHOD + addMethod/syncFields/newMethod (tie by correspondence; the instruction list of every Load is decompiled from the code the real compiler produced); versions differ in bodies only (the property's quantifier). One open known finding (a version that ADDS a field: old instances lack it).",
+   technique="Coq proof by invariant over all load/capture/call histories on a model of the top-level instructions + correspondence + differential with native oracles",
+   ref="DESIGN.md section 5 C17"),
+ "C01": dict(
+   text="C01 is claimed as the composition of the facet properties (each with its own theorems) plus a whole-program differential against the Go toolchain; the end-to-end part that is closed as a theorem is c01_expr_partial / c01_expr_eval: for every token list, variable assignment and operand value, goatlang's parse (generated table), opcode choice (generated infixMap) and operator implementations (generated from value.go) give Go's grouping and Go's int32 value. Correspondence: expression model vs implementation and vs real Go; model VM vs real VM on real compiled code; system level: generated programs of four profiles incl. multi-package layouts vs `go build`.",
+   note=NOTE + " C01: no formal semantics of Go is available offline, so there is no single end-to-end theorem over whole programs (named _partial); statements, calls, containers, strings, printing, scoping and packages are decided by C02-C20; 'as the Go toolchain' in the differential means go1.23 on the same source with int := int32; fmt.Print/Sprint with several operands are outside (property statement).",
+   technique="Coq proof composing the C05 and C04 theorems over go2v-regenerated tables and operators + correspondence + differential against go build",
+   ref="DESIGN.md section 5 C01"),
 }
 NOT_APPLICABLE = []
 def main():
